@@ -12,7 +12,10 @@ def run_cross(chk, tier, seed, owned, flagsets, modes, containers=ALL, do_random
     sub = "cross" if tier == "quick" else "quick"
 
     def one(desc):
-        pipeline.run_container(chk, sub, seed, desc, owned=owned, flagsets=flagsets, modes=modes, do_random=do_random, threads=4)
+        # with failure injection every allocating call is repeated once per allocation: keep the random histories small
+        inject = any(("a" in f or "f" in f) for f in flagsets)
+        pipeline.run_container(chk, sub, seed, desc, owned=owned, flagsets=flagsets, modes=modes, do_random=do_random, threads=4,
+                               random_tier="cross" if inject else None)
 
     with ThreadPoolExecutor(3) as ex:
         list(ex.map(one, containers))
